@@ -373,6 +373,13 @@ def run_local(plan, s, res, tr):
             hook, state["on_read"] = state["on_read"], None
             if hook is not None:
                 hook()          # something else happens while the request is in progress
+            every = state.get("on_every_read")
+            if every is not None and not state.get("in_every"):
+                state["in_every"] = True
+                try:
+                    every()     # ... every time the value is read, for as long as the outer request lasts
+                finally:
+                    state["in_every"] = False
             return self._v
 
     # the application's own sequencer class: the library's, or derived from it with a constructor of its own
@@ -454,13 +461,20 @@ def run_local(plan, s, res, tr):
             tr.ev("local", "deepcopy", clone is not None)
         elif op[0] == "next_with_next_inside":
             inner = []
-            state["on_read"] = lambda: inner.append(seq.next_sequence())
-            outer = seq.next_sequence()
-            state["on_read"] = None
+            if i % 2:
+                state["on_read"] = lambda: inner.append(seq.next_sequence())
+            else:
+                # the start confirms itself through the connection on EVERY read of its value: a request reads it once
+                state["on_every_read"] = lambda: inner.append(seq.next_sequence())
+            try:
+                outer = seq.next_sequence()
+            finally:
+                state["on_read"] = None
+                state["on_every_read"] = None
             res.count("fault.request_during_request")
             tr.ev("local", "next-in-next", inner[:1], outer)
             want = [start + n % 10, start + (n + 1) % 10]
-            if inner[:1] + [outer] != want:
+            if inner + [outer] != want:
                 s.fail("sequence-value", "local", f"local history step {i}: a request made from inside the start's value read returned "
                        f"{inner[:1]}, the request it interrupted then returned {outer}; requests #{n} and #{n + 1} with start {start} are {want}")
                 return
